@@ -342,6 +342,9 @@ def _scalar_binop_term(op, a, b):
             # NumPy float64 division: IEEE (division by zero gives inf/nan plus a warning, modelled by the caller)
             return z3.fpDiv(RNE, x, y)
         if op == 'Pow':
+            # NumPy / CPython compute x ** 2 as x * x (exact same rounding); other exponents stay uninterpreted
+            if kb in ('int', 'bool') and not is_sym(b) and int(b) == 2:
+                return z3.fpMul(RNE, x, x)
             return UF_POW(x, y)
         raise OutOfSubset(f'float operator {op}')
     if ka == 'bool' and kb == 'bool' and op in ('BitAnd', 'BitOr', 'BitXor'):
